@@ -273,7 +273,9 @@ class PipelineTrace:
         self.orders = {}
         T = ns.transform
         for name in self.NAMES:
-            fn = getattr(T, name)
+            fn = getattr(T, name, None)
+            if fn is None:
+                continue        # another tree may compose the pipeline from other helpers: the trace is evidence only
 
             def mk(name, fn):
                 def w(*a, **k):
